@@ -94,6 +94,7 @@ type lexer struct {
 	data     string
 	p, pe, m int
 	id       string
+	depth    int // current nesting depth of recursively parsed terms/relations
 }
 
 // initialize/reset lexer with data string to lex
